@@ -144,6 +144,15 @@ func (e *Engine) LoadSpecs(extDir string) error {
 	}
 	if extDir != "" {
 		files, _ := filepath.Glob(filepath.Join(extDir, "*.spec"))
+		// *.vspec: contracts for functions of dependencies (source in the module cache) that are
+		// VERIFIED against that source like the repository's own functions, not assumed
+		vfiles, _ := filepath.Glob(filepath.Join(extDir, "*.vspec"))
+		sort.Strings(vfiles)
+		for _, f := range vfiles {
+			if err := e.db.ParseSpecFile(f, "", false); err != nil {
+				return err
+			}
+		}
 		sort.Strings(files)
 		for _, f := range files {
 			if err := e.db.ParseSpecFile(f, "", true); err != nil {
